@@ -18,12 +18,14 @@ import (
 	"os"
 	"os/exec"
 	"path/filepath"
+	"strconv"
 	"strings"
 	"syscall"
 	"time"
 )
 
-const maxWait = 120 * time.Second
+// the longest a gate is held; VERIF_C20_MAXWAIT (seconds) raises it for the long-compile-phase launches
+var maxWait = 120 * time.Second
 
 func realGo() string {
 	if p := os.Getenv("VERIF_C20_REALGO"); p != "" {
@@ -55,6 +57,9 @@ func waitFor(p string) {
 }
 
 func main() {
+	if n, err := strconv.Atoi(os.Getenv("VERIF_C20_MAXWAIT")); err == nil && n > 0 {
+		maxWait = time.Duration(n) * time.Second
+	}
 	goBin := realGo()
 	args := os.Args[1:]
 	gate, sync, id := os.Getenv("VERIF_C20_GATE"), os.Getenv("VERIF_C20_SYNC"), os.Getenv("VERIF_C20_ID")
